@@ -278,12 +278,12 @@ pub fn divide_uint_mod_inplace(numerator: &mut [u64], modulus: &Modulus, quotien
     } else if u64_count == 1 {
         quotient[0] = numerator[0] / modulus.value();
         numerator[0] = barrett_reduce_u64(numerator[0], modulus); return;
-    } else {
+    } else if u64_count > 2 {
         // If uint64_count > 2.
         // x = numerator = x1 * 2^128 + x2.
         // 2^128 = A*value + B.
         let mut x1 = vec![0; u64_count - 2];
-        let mut x2 = vec![0; 2];
+        let mut x2 = vec![0; u64_count];
         let mut quot = vec![0; u64_count];
         let mut rem = vec![0; u64_count];
         util::set_uint(&numerator[2..], u64_count - 2, &mut x1);
@@ -294,7 +294,10 @@ pub fn divide_uint_mod_inplace(numerator: &mut [u64], modulus: &Modulus, quotien
         util::add_uint_inplace(&mut rem, &x2);
 
         let remainder_u64_count = util::get_significant_uint64_count_uint(&rem);
-        divide_uint_mod_inplace(&mut rem, modulus, &mut quotient[0..remainder_u64_count]);
+        util::set_zero_uint(quotient);
+        if remainder_u64_count > 0 {
+            divide_uint_mod_inplace(&mut rem, modulus, &mut quotient[0..remainder_u64_count]);
+        }
         util::add_uint_inplace(quotient, &quot);
         numerator[0] = rem[0];
         return;
